@@ -120,6 +120,9 @@ func genC10(r *Rand, tier string, ord int) *Trial {
 	kind := "generated"
 	if many {
 		n = r.Range(60, 150)
+		if r.P(0.35) {
+			n = r.Range(49, 70) // right at the NumCPU+50 channel capacities
+		}
 		kind = "generated-many"
 		if r.P(0.2) {
 			n, kind = r.Range(300, 600), "generated-many-hundreds"
